@@ -21,19 +21,30 @@ Proof.
     rewrite <- app_assoc. reflexivity.
 Qed.
 
+Lemma anyb_exists {A : Type} (f : A -> bool) l : anyb f l = true <-> exists x, In x l /\ f x = true.
+Proof.
+  induction l as [|a r IH]; cbn.
+  - split; [discriminate | intros (x & [] & _)].
+  - destruct (f a) eqn:E.
+    + split; auto. intros _. exists a. auto.
+    + rewrite IH. split; intros (x & Hx & Hf); [exists x; auto|].
+      destruct Hx as [->|Hx]; [congruence | exists x; auto].
+Qed.
+
 Lemma linb_complete m h : lin m h -> forall fuel, length h <= fuel -> linb fuel m h = true.
 Proof.
   induction 1 as [m|m l1 o l2 m' Hmin Hspec Hlin IH]; intros fuel Hlen.
   - destruct fuel; reflexivity.
   - destruct (l1 ++ o :: l2) as [|x r] eqn:E; [destruct l1; discriminate|].
     destruct fuel as [|f]; [cbn in Hlen; lia|].
-    cbn [linb]. rewrite <- E. apply existsb_exists. exists (o, l1 ++ l2). split.
+    cbn [linb]. rewrite <- E. apply anyb_exists. exists (o, l1 ++ l2). split.
     + apply (picks_in l1 [] o l2).
-    + cbn [fst snd]. apply andb_true_iff. split.
-      * apply forallb_forall. intros y Hy. apply Nat.ltb_lt. apply Hmin. exact Hy.
-      * rewrite Hspec. cbn [fst snd]. rewrite N.eqb_refl. cbn. apply IH.
-        assert (length (l1 ++ o :: l2) = S (length (l1 ++ l2))) by (rewrite !app_length; cbn; lia).
-        rewrite <- E in Hlen. lia.
+    + cbn [fst snd].
+      assert (Hf : forallb (fun x => h_inv o <? h_res x) (l1 ++ l2) = true)
+        by (apply forallb_forall; intros y Hy; apply Nat.ltb_lt; apply Hmin; exact Hy).
+      rewrite Hf, Hspec. cbn [fst snd]. rewrite N.eqb_refl. apply IH.
+      assert (length (l1 ++ o :: l2) = S (length (l1 ++ l2))) by (rewrite !app_length; cbn; lia).
+      rewrite <- E in Hlen. lia.
 Qed.
 
 Lemma linb_sound : forall fuel m h, linb fuel m h = true -> lin m h.
@@ -41,10 +52,11 @@ Proof.
   induction fuel as [|f IH]; intros m h H.
   - destruct h; [constructor | discriminate].
   - destruct h as [|x r]; [constructor|].
-    cbn [linb] in H. apply existsb_exists in H. destruct H as ([o rest] & Hin & Hc). cbn [fst snd] in Hc.
+    cbn [linb] in H. apply anyb_exists in H. destruct H as ([o rest] & Hin & Hc). cbn [fst snd] in Hc.
     apply picks_inv in Hin. destruct Hin as (l1 & l2 & E & ->). cbn [app] in *. rewrite E.
-    apply andb_true_iff in Hc. destruct Hc as [Hmin Hc]. apply andb_true_iff in Hc. destruct Hc as [Hr Hl].
-    destruct (spec_step m (h_op o)) as [r0 m'] eqn:Es. cbn [fst snd] in *. apply N.eqb_eq in Hr. subst r0.
+    destruct (forallb (fun x => h_inv o <? h_res x) (l1 ++ l2)) eqn:Hmin; [|discriminate].
+    destruct (spec_step m (h_op o)) as [r0 m'] eqn:Es. cbn [fst snd] in *.
+    destruct (r0 =? h_ret o)%N eqn:Hr; [|discriminate]. pose proof Hc as Hl. apply N.eqb_eq in Hr. subst r0.
     apply (lin_cons m l1 o l2 m'); auto.
     intros y Hy. apply Nat.ltb_lt. rewrite forallb_forall in Hmin. apply Hmin. exact Hy.
 Qed.
